@@ -389,10 +389,11 @@ Section RecallProofs.
   Notation known_snippets := (known_snippets S score_fn s_le s_zero engine toc combined).
   Notation final_filter := (final_filter S score_fn s_le s_zero).
 
-  (* RECALL, outside the two known classes: default request (no cursor), k <= top_k. *)
+  (* RECALL, outside the two known classes: default request (no cursor), k <= top_k.
+     `top_k <= USIZE_MAX` is the range of the Rust type (top_k : usize). *)
   Theorem recall_outside_known es q top_k has_text no_sketch cf0 has_lex M :
     let rq := mkSreq top_k None has_text no_sketch in
-    top_k * 10 <= USIZE_MAX ->
+    top_k <= USIZE_MAX ->
     NoDup M -> M <> [] -> len M <= top_k ->
     (forall f, In f M -> in_cf cf0 f = true) ->
     engine_recall engine M ->
@@ -405,25 +406,13 @@ Section RecallProofs.
     intros rq Hk10 Hnd Hne Hk Hcf0 Heng Hev Hks Hkn.
     unfold Recall.known_sketch, Recall.known_snippets, Recall.evaluated_docs, Recall.search in *.
     cbn [r_top_k r_cursor r_has_text r_no_sketch rq] in *.
-    destruct (final_filter es q has_text no_sketch top_k cf0) as [cf|k|s] eqn:Hff.
-    2:{ exfalso. unfold Recall.final_filter, sketch_max_candidates in Hff.
-        destruct (sketch_applies _ _ _); [|discriminate].
-        destruct (N.ltb_spec USIZE_MAX (top_k * 10)); [lia | discriminate]. }
-    2:{ exfalso. unfold Recall.final_filter, sketch_max_candidates in Hff.
-        destruct (sketch_applies _ _ _); [|discriminate].
-        destruct (N.ltb_spec USIZE_MAX (top_k * 10)); [lia | discriminate]. }
+    set (cf := final_filter es q has_text no_sketch top_k cf0) in *.
     assert (Hin : forall f, In f M -> in_cf cf f = true).
     { intros f Hf. apply (proj1 (sketch_drops_false M cf0 cf) Hks f Hf). apply Hcf0. exact Hf. }
-    unfold offset_hint in *.
-    assert (HU : USIZE_MAX = 18446744073709551615) by reflexivity.
-    unfold doc_limit in *.
-    destruct (N.ltb_spec USIZE_MAX (N.max top_k 1 + 0)) as [Hov|_]; [lia|].
-    set (limit := match option_map set_len cf with
-                  | Some f => N.min (N.max (N.min ((N.max top_k 1 + 0) * DOC_LIMIT_FACTOR) USIZE_MAX) DOC_LIMIT_FLOOR) (N.max f 1)
-                  | None => N.max (N.min ((N.max top_k 1 + 0) * DOC_LIMIT_FACTOR) USIZE_MAX) DOC_LIMIT_FLOOR
-                  end) in *.
+    set (limit := engine_limit top_k (offset_hint None) (option_map set_len cf)) in *.
     assert (Hlim : len (filter (in_cf cf) M) <= N.max limit 1).
-    { rewrite (filter_all _ _ Hin). subst limit. unfold DOC_LIMIT_FACTOR, DOC_LIMIT_FLOOR.
+    { rewrite (filter_all _ _ Hin). subst limit. unfold engine_limit, offset_hint.
+      assert (HU : USIZE_MAX = 18446744073709551615) by reflexivity.
       destruct cf as [l|]; cbn [option_map].
       - assert (len M <= set_len l).
         { apply NoDup_sub_set_len; [exact Hnd|]. intros f Hf. apply mem_id_In. apply (Hin f Hf). }
@@ -459,12 +448,11 @@ Section RecallProofs.
 
   Lemma passing_entries_never_dropped es q top_k has_text no_sketch cf0 M :
     (forall f, In f M -> exists e, In e es /\ e_frame_id e = f /\ entry_passes q SKETCH_HAMMING_THRESHOLD e = true) ->
-    len (filter (entry_passes q SKETCH_HAMMING_THRESHOLD) es) <= N.max (top_k * 10) SKETCH_MIN_CANDIDATES ->
+    len (filter (entry_passes q SKETCH_HAMMING_THRESHOLD) es) <= sketch_max_candidates top_k ->
     known_sketch es q (mkSreq top_k None has_text no_sketch) cf0 M = false.
   Proof.
     intros Hpass Hcut. unfold Recall.known_sketch, Recall.final_filter. cbn [r_has_text r_no_sketch r_top_k].
     destruct (sketch_applies es has_text no_sketch); [|apply sketch_drops_false; auto].
-    unfold sketch_max_candidates. destruct (USIZE_MAX <? top_k * 10); [reflexivity|].
     apply sketch_drops_false. intros f Hf H0. apply sketch_stage_keeps; [exact H0|].
     apply mem_id_In. destruct (Hpass f Hf) as (e & He & <- & Hp).
     apply candidate_ids_complete; assumption.
